@@ -2,6 +2,7 @@ package main
 
 import (
 	"sync"
+	"sync/atomic"
 	"time"
 
 	v1 "github.com/keep94/sqroot"
@@ -43,6 +44,17 @@ func runFind(c *Case) []string {
 	}
 	if we >= 0 {
 		v = v.WithEnd(we)
+	}
+	// an eager search leaves the caller's pattern alone for its whole duration: the digit source of a generator-backed
+	// Number (called by the library while the search runs) looks at it
+	var touched int32
+	if src != nil && fn <= 4 {
+		want := append([]int(nil), pat...)
+		src.probe = func() {
+			if !eqInts(pat, want) {
+				atomic.StoreInt32(&touched, 1)
+			}
+		}
 	}
 	var res []int
 	// the lazy entry points (Find, FindR, Matches, BackwardMatches) have been handed the pattern when their iterator
@@ -237,6 +249,9 @@ func runFind(c *Case) []string {
 	}
 	if fn <= 4 && !eqInts(pat, origPat) {
 		res = append(res, -556) // the library modified the caller's pattern
+	}
+	if atomic.LoadInt32(&touched) != 0 {
+		res = append(res, -557) // the caller's pattern was altered while the search was running
 	}
 	var t toks
 	t.ints(res)
